@@ -110,5 +110,6 @@ pub fn specs(tier: &str) -> Vec<ExpSpec> {
     }
     v.extend(crate::c03::garbage_specs(th));
     v.extend(crate::c03::fragmented_dir_specs(th));
+    v.extend(crate::c03::full_dir_specs(th));
     v
 }
